@@ -1,324 +1,12 @@
 --------------------------- MODULE EndorseCommit ---------------------------
 (***************************************************************************)
-(* endorse.VirtualFirmware after the measurement has been computed:        *)
-(* sign (CA + Signer calls), then the commit retry loop of                 *)
-(* endorse/commit.go (RetrySubmit / tryChange / changeEndorsements /       *)
-(* snapshotEndorsement) against a version-control backend with optimistic  *)
-(* concurrency (a commit conflicts when the head moved since the workspace *)
-(* was created).  One action per interface call the real code makes        *)
-(* (VersionControl, ChangeOps, CertificateAuthority, Signer); `ev` is the  *)
-(* event the recording doubles log for that call, so the same module is    *)
-(* used for exhaustive checking, behaviour generation and trace validation.*)
-(*                                                                         *)
-(* Decides C14 (bounded / fresh / honest retries, no lost update) and C15  *)
-(* (dry-run and measurement-only runs have no side effects, do not panic). *)
+(* The model of the sign + commit retry loop is in EndorseCommitCore.tla   *)
+(* (so that the proof system can read it: EndorseCommitProof.tla proves    *)
+(* the attempt bound of C14 and the no-effect statements of C15 for any    *)
+(* retry budget); this module adds the emission of complete behaviours.    *)
+(* Trace_EndorseCommit.tla extends this module.                            *)
 (***************************************************************************)
-EXTENDS Integers, Sequences, FiniteSets, TLC, Json
-
-CONSTANTS
-  MaxRetries,   \* retry budgets explored: -1 .. MaxRetries
-  MaxOthers,    \* how many commits a concurrent writer may make
-  Design        \* "repaired" | "legacy_dryrun" | "cached_manifest" (negative controls)
-
-VARIABLES
-  cfg,        \* [retries, dryRun, measOnly, snapshot, exists0, overwrite]
-  pc,         \* program counter of the endorse run
-  attempt,    \* number of tryChange calls started
-  tries,      \* RetrySubmit's failure counter
-  head,       \* committed state: [man : set of entry names, endo : "none"|"old"|"mine", snap : BOOLEAN]
-  ws,         \* current workspace: [id, base, cur, readMan] or NoWs
-  created,    \* ids of workspaces ever created
-  destroyed,  \* ids of workspaces destroyed
-  lastErr,    \* "none" | "retriable" | "permanent" : kind of the error that ended the last attempt
-  ret,        \* "none" | "ok" | "err" | "noretries" | "panic"
-  nResults,   \* VCS.Result calls
-  nCommits,   \* successful TryCommit calls
-  others,     \* entries committed by the concurrent writer
-  cached,     \* manifest remembered across attempts (only used by Design = "cached_manifest")
-  effects,    \* set of side-effect classes performed so far
-  ev,         \* event record of the last step (what the recording doubles log)
-  hist        \* sequence of events so far
-
-vars == <<cfg, pc, attempt, tries, head, ws, created, destroyed, lastErr, ret, nResults,
-          nCommits, others, cached, effects, ev, hist>>
-\* everything except the observation-only variables
-view == <<cfg, pc, attempt, tries, head, ws, created, destroyed, lastErr, ret, nResults,
-          nCommits, others, cached, effects>>
-
-NoWs == [id |-> 0, base |-> [man |-> {}, endo |-> "none", snap |-> FALSE],
-         cur |-> [man |-> {}, endo |-> "none", snap |-> FALSE], readMan |-> FALSE]
-Kinds == {"retriable", "permanent"}
-Max(a, b) == IF a > b THEN a ELSE b
-
-Ev(op, w, out) == [op |-> op, ws |-> w, out |-> out]
-Step(e) == /\ ev' = e
-           /\ hist' = Append(hist, e)
-
-Cfgs == [retries : -1 .. MaxRetries, dryRun : BOOLEAN, measOnly : BOOLEAN,
-         snapshot : BOOLEAN, exists0 : BOOLEAN, overwrite : BOOLEAN]
-
-InitWith(c) ==
-  /\ cfg = c
-  /\ pc = IF cfg.measOnly THEN "print" ELSE "caprimary"
-  /\ attempt = 0 /\ tries = 0
-  /\ head = [man |-> IF cfg.exists0 THEN {"old"} ELSE {},
-             endo |-> IF cfg.exists0 THEN "old" ELSE "none", snap |-> FALSE]
-  /\ ws = NoWs /\ created = {} /\ destroyed = {}
-  /\ lastErr = "none" /\ ret = "none" /\ nResults = 0 /\ nCommits = 0
-  /\ others = {} /\ cached = {} /\ effects = {}
-  /\ ev = Ev("Init", 0, "ok") /\ hist = <<>>
-
-Init == \E c \in Cfgs : InitWith(c)
-
-(***************************************************************************)
-(* Signing phase.                                                          *)
-(***************************************************************************)
-PrintMeas ==
-  /\ pc = "print"
-  /\ pc' = "return" /\ ret' = "ok"
-  /\ effects' = effects \cup {"print"}
-  /\ Step(Ev("Print", 0, "ok"))
-  /\ UNCHANGED <<cfg, attempt, tries, head, ws, created, destroyed, lastErr, nResults,
-                 nCommits, others, cached>>
-
-\* A CA / signer call: ok moves on, a failure ends the run with an error.
-KeyCall(at, op, eff, next) ==
-  /\ pc = at
-  /\ effects' = effects \cup {eff}
-  /\ \/ /\ pc' = next /\ ret' = ret
-        /\ Step(Ev(op, 0, "ok"))
-     \/ \E k \in Kinds :
-        /\ pc' = "return" /\ ret' = "err"
-        /\ Step(Ev(op, 0, k))
-  /\ UNCHANGED <<cfg, attempt, tries, head, ws, created, destroyed, lastErr, nResults,
-                 nCommits, others, cached>>
-
-CAPrimary == KeyCall("caprimary", "CAPrimary", "ca", "cacert")
-CACert    == KeyCall("cacert", "CACert", "ca", "cabundle")
-CABundle  == KeyCall("cabundle", "CABundle", "ca", "sign")
-Sign      == KeyCall("sign", "Sign", "signer", "loop")
-
-(***************************************************************************)
-(* tryChange                                                               *)
-(***************************************************************************)
-\* An attempt ends with an error of kind k after destroying the workspace (if there is one).
-FailAttempt(k) ==
-  /\ lastErr' = k
-  /\ pc' = IF ws'.id # 0 THEN "destroy" ELSE "failed"
-
-\* tryChange begins.  Dry run: no workspace is created; the change function runs against a
-\* no-op file abstraction, nothing is observable until Result (repaired design); the legacy design
-\* calls ReadFile on the nil workspace and panics.
-BeginDry ==
-  /\ pc = "loop" /\ cfg.dryRun
-  /\ attempt' = attempt + 1
-  /\ IF Design = "legacy_dryrun"
-       THEN /\ pc' = "return" /\ ret' = "panic"
-            /\ Step(Ev("Panic", 0, "nil workspace"))
-            /\ UNCHANGED <<nResults>>
-       ELSE /\ pc' = "return" /\ ret' = "ok"
-            /\ nResults' = nResults + 1
-            /\ Step(Ev("Result", 0, "ok"))
-  /\ effects' = effects \cup {"result"}
-  /\ UNCHANGED <<cfg, tries, head, ws, created, destroyed, lastErr, nCommits, others, cached>>
-
-GetOps ==
-  /\ pc = "loop" /\ ~cfg.dryRun
-  /\ attempt' = attempt + 1
-  /\ effects' = effects \cup {"workspace"}
-  /\ \/ LET id == Cardinality(created) + 1 IN
-        /\ ws' = [id |-> id, base |-> head, cur |-> head, readMan |-> FALSE]
-        /\ created' = created \cup {id}
-        /\ pc' = IF cfg.snapshot THEN "snapw1" ELSE "readman"
-        /\ lastErr' = lastErr
-        /\ Step(Ev("GetOps", id, "ok"))
-     \/ \E k \in Kinds :
-        /\ ws' = NoWs /\ created' = created
-        /\ FailAttempt(k)
-        /\ Step(Ev("GetOps", 0, k))
-  /\ UNCHANGED <<cfg, tries, head, destroyed, ret, nResults, nCommits, others, cached>>
-
-\* A fallible file operation in the current workspace: ok applies `upd` to the working copy.
-FileOp(at, op, okOut, next, newCur, eff) ==
-  /\ pc = at
-  /\ effects' = effects \cup eff
-  /\ \/ /\ ws' = [ws EXCEPT !.cur = newCur]
-        /\ pc' = next /\ lastErr' = lastErr
-        /\ Step(Ev(op, ws.id, okOut))
-     \/ \E k \in Kinds :
-        /\ ws' = ws
-        /\ FailAttempt(k)
-        /\ Step(Ev(op, ws.id, k))
-  /\ UNCHANGED <<cfg, attempt, tries, head, created, destroyed, ret, nResults, nCommits, others, cached>>
-
-\* changeEndorsements: the manifest is read from this attempt's workspace.
-ReadMan ==
-  /\ pc = "readman"
-  /\ \/ /\ ws' = [ws EXCEPT !.readMan = TRUE]
-        /\ cached' = IF Design = "cached_manifest" /\ attempt > 1 THEN cached ELSE ws.cur.man
-        /\ pc' = "exists" /\ lastErr' = lastErr
-        /\ Step(Ev("ReadMan", ws.id, IF ws.cur.man = {} THEN "notfound" ELSE "ok"))
-     \/ \E k \in Kinds :
-        /\ ws' = ws /\ cached' = cached
-        /\ FailAttempt(k)
-        /\ Step(Ev("ReadMan", ws.id, k))
-  /\ UNCHANGED <<cfg, attempt, tries, head, created, destroyed, ret, nResults, nCommits, others, effects>>
-
-\* defaultGenerateBasename: existence check of the endorsement file, gated by overwrite.
-Exists ==
-  /\ pc = "exists"
-  /\ \/ /\ ws' = ws
-        /\ IF ws.cur.endo # "none" /\ ~cfg.overwrite
-             THEN FailAttempt("permanent")    \* "cannot overwrite existing file"
-             ELSE pc' = "wendo" /\ lastErr' = lastErr
-        /\ Step(Ev("Exists", ws.id, IF ws.cur.endo # "none" THEN "found" ELSE "notfound"))
-     \/ \E k \in Kinds :
-        /\ ws' = ws
-        /\ FailAttempt(k)
-        /\ Step(Ev("Exists", ws.id, k))
-  /\ UNCHANGED <<cfg, attempt, tries, head, created, destroyed, ret, nResults, nCommits, others, cached, effects>>
-
-WriteEndo == FileOp("wendo", "WriteEndo", "ok", "chmod", [ws.cur EXCEPT !.endo = "mine"], {"write"})
-Chmod     == FileOp("chmod", "Chmod", "ok", "wman", ws.cur, {"chmod"})
-\* the manifest written is the one read in this attempt plus the new entry
-ManifestToWrite == ((IF Design = "cached_manifest" THEN cached ELSE ws.cur.man) \ {"old"}) \cup {"mine"}
-WriteMan  == FileOp("wman", "WriteMan", "ok", "commit", [ws.cur EXCEPT !.man = ManifestToWrite], {"write"})
-
-\* snapshotEndorsement: signature file, chmod, firmware + events, chmod, chmod; no manifest.
-SnapW1 == FileOp("snapw1", "WriteSig", "ok", "snapc1", [ws.cur EXCEPT !.snap = TRUE], {"write"})
-SnapC1 == FileOp("snapc1", "Chmod", "ok", "snapw2", ws.cur, {"chmod"})
-SnapW2 == FileOp("snapw2", "WriteFw", "ok", "snapc2", ws.cur, {"write"})
-SnapC2 == FileOp("snapc2", "Chmod", "ok", "snapc3", ws.cur, {"chmod"})
-SnapC3 == FileOp("snapc3", "Chmod", "ok", "commit", ws.cur, {"chmod"})
-
-\* TryCommit: conflicts (retriably) when the head moved since the workspace was created.
-Commit ==
-  /\ pc = "commit"
-  /\ effects' = effects \cup {"commit"}
-  /\ IF head # ws.base
-       THEN /\ ws' = ws /\ FailAttempt("retriable")
-            /\ Step(Ev("Commit", ws.id, "conflict"))
-            /\ UNCHANGED <<head, nCommits>>
-       ELSE \/ /\ head' = ws.cur /\ nCommits' = nCommits + 1
-               /\ pc' = "result" /\ lastErr' = lastErr /\ ws' = ws
-               /\ Step(Ev("Commit", ws.id, "ok"))
-            \/ \E k \in Kinds :
-               /\ ws' = ws /\ FailAttempt(k)
-               /\ Step(Ev("Commit", ws.id, k))
-               /\ UNCHANGED <<head, nCommits>>
-  /\ UNCHANGED <<cfg, attempt, tries, created, destroyed, ret, nResults, others, cached>>
-
-Destroy ==
-  /\ pc = "destroy"
-  /\ destroyed' = destroyed \cup {ws.id}
-  /\ pc' = "failed"
-  /\ Step(Ev("Destroy", ws.id, "ok"))
-  /\ UNCHANGED <<cfg, attempt, tries, head, ws, created, lastErr, ret, nResults, nCommits, others, cached, effects>>
-
-Result ==
-  /\ pc = "result"
-  /\ nResults' = nResults + 1
-  /\ effects' = effects \cup {"result"}
-  /\ pc' = "return" /\ ret' = "ok"
-  /\ Step(Ev("Result", 0, "ok"))
-  /\ UNCHANGED <<cfg, attempt, tries, head, ws, created, destroyed, lastErr, nCommits, others, cached>>
-
-(***************************************************************************)
-(* RetrySubmit: after a failed attempt ask the backend whether the error   *)
-(* is retriable; retry while the budget lasts.                             *)
-(***************************************************************************)
-AskRetriable ==
-  /\ pc = "failed"
-  /\ Step(Ev("Retriable", 0, IF lastErr = "retriable" THEN "true" ELSE "false"))
-  /\ IF lastErr # "retriable"
-       THEN pc' = "return" /\ ret' = "err" /\ tries' = tries
-       ELSE /\ tries' = tries + 1
-            /\ IF cfg.retries - tries' < 0
-                 THEN pc' = "return" /\ ret' = "noretries"
-                 ELSE pc' = "loop" /\ ret' = ret
-  /\ UNCHANGED <<cfg, attempt, head, ws, created, destroyed, lastErr, nResults, nCommits, others, cached, effects>>
-
-Return ==
-  /\ pc = "return"
-  /\ pc' = "done"
-  /\ Step(Ev("Return", 0, ret))
-  /\ UNCHANGED <<cfg, attempt, tries, head, ws, created, destroyed, lastErr, ret, nResults, nCommits, others, cached, effects>>
-
-(***************************************************************************)
-(* Environment: a concurrent writer commits its own entry to the head,     *)
-(* either between attempts or while an attempt is in flight (right after   *)
-(* its workspace was created).                                             *)
-(***************************************************************************)
-OtherName(n) == IF n = 0 THEN "o1" ELSE IF n = 1 THEN "o2" ELSE "o3"
-Other ==
-  /\ pc \in {"loop", "readman"} /\ ~cfg.dryRun
-  /\ Cardinality(others) < MaxOthers
-  /\ LET n == OtherName(Cardinality(others)) IN
-     /\ others' = others \cup {n}
-     /\ head' = [head EXCEPT !.man = @ \cup {n}]
-     /\ Step(Ev("Other", 0, n))
-  /\ UNCHANGED <<cfg, pc, attempt, tries, ws, created, destroyed, lastErr, ret, nResults, nCommits, cached, effects>>
-
-Next ==
-  \/ PrintMeas \/ CAPrimary \/ CACert \/ CABundle \/ Sign
-  \/ BeginDry \/ GetOps \/ ReadMan \/ Exists \/ WriteEndo \/ Chmod \/ WriteMan
-  \/ SnapW1 \/ SnapC1 \/ SnapW2 \/ SnapC2 \/ SnapC3
-  \/ Commit \/ Destroy \/ Result \/ AskRetriable \/ Return \/ Other
-
-Spec == Init /\ [][Next]_vars /\ WF_vars(Next)
-
-(***************************************************************************)
-(* C14                                                                     *)
-(***************************************************************************)
-C14_AttemptBound == attempt <= Max(1, cfg.retries + 1)
-
-\* a further attempt starts only after an error the backend marked retriable
-C14_RetryOnlyRetriable == [][attempt' > attempt /\ attempt >= 1 => lastErr = "retriable"]_vars
-
-\* every attempt gets a workspace never used before
-C14_FreshWorkspace == [][ws'.id # ws.id /\ ws'.id # 0 => ws'.id \notin created]_vars
-
-\* the manifest that is written was read in this attempt's workspace, which was created from
-\* the head of that moment
-C14_ManifestReadInAttempt ==
-  pc = "commit" /\ ~cfg.snapshot => ws.readMan /\ (ws.base.man \ {"old"}) \subseteq ws.cur.man
-
-\* the workspace of every failed attempt is released before the next attempt or the return
-C14_Released ==
-  pc \in {"loop", "return", "done"} =>
-    created \ destroyed \subseteq (IF nCommits = 1 THEN {ws.id} ELSE {})
-
-C14_Honest ==
-  pc = "done" /\ ~cfg.dryRun /\ ~cfg.measOnly /\ ret # "panic" =>
-    /\ (ret = "ok") = (nCommits = 1)
-    /\ nCommits <= 1
-    /\ nResults = nCommits
-
-\* Result is recorded only after the commit succeeded
-C14_ResultAfterCommit == [][nResults' > nResults /\ ~cfg.dryRun => nCommits = 1]_vars
-
-\* entries committed concurrently by someone else are never dropped
-C14_NoLostUpdate == others \subseteq head.man
-
-C14_MineCommitted ==
-  pc = "done" /\ ret = "ok" /\ ~cfg.dryRun /\ ~cfg.measOnly =>
-     IF cfg.snapshot THEN head.snap ELSE "mine" \in head.man /\ head.endo = "mine"
-
-\* without overwrite permission an existing endorsement file is never replaced (C13 clause)
-C13_NoClobber == cfg.exists0 /\ ~cfg.overwrite => head.endo = "old"
-
-C14_Terminates == <>(pc = "done")
-
-(***************************************************************************)
-(* C15                                                                     *)
-(***************************************************************************)
-C15_DryRunNoEffects ==
-  cfg.dryRun => effects \cap {"workspace", "write", "chmod", "commit"} = {}
-C15_MeasOnlyNoEffects ==
-  cfg.measOnly => effects \subseteq {"print"}
-C15_NoPanic == ret # "panic"
-C15_HeadUntouched == (cfg.dryRun \/ cfg.measOnly) => head = [man |-> IF cfg.exists0 THEN {"old"} ELSE {},
-             endo |-> IF cfg.exists0 THEN "old" ELSE "none", snap |-> FALSE]
+EXTENDS EndorseCommitCore, Json
 
 (***************************************************************************)
 (* Emission of complete behaviours (used by the replay direction).         *)
